@@ -59,6 +59,37 @@ class Raised:
         return f'raises {self.kind}'
 
 
+class _Ctx:
+    """A call of a generator function decorated with contextlib.contextmanager: the statements in
+    front of its single top-level yield run on entering a `with`, the rest (a `finally` around the
+    yield included) on leaving it."""
+
+    def __init__(self, ev, fndef, env):
+        self.ev, self.env = ev, env
+        pre, post, val = [], [], None
+        body = list(fndef.body)
+        for i, st in enumerate(body):
+            if isinstance(st, ast.Expr) and isinstance(st.value, ast.Yield):
+                pre, val, post = body[:i], st.value.value, body[i + 1:]
+                break
+            if isinstance(st, ast.Try) and not st.handlers:
+                ys = [j for j, x in enumerate(st.body) if isinstance(x, ast.Expr) and isinstance(x.value, ast.Yield)]
+                if len(ys) == 1:
+                    j = ys[0]
+                    pre, val, post = body[:i] + st.body[:j], st.body[j].value.value, st.body[j + 1:] + st.finalbody + body[i + 1:]
+                    break
+        else:
+            raise AnalysisError(f'context manager {fndef.name}: no single top-level yield')
+        self.pre, self.post, self.val = pre, post, val
+
+    def enter(self):
+        self.ev.block(self.pre, self.env)
+        return self.ev.expr(self.val, self.env) if self.val is not None else None
+
+    def exit(self):
+        self.ev.block(self.post, self.env)
+
+
 class Opaque:
     """A value the evaluator does not model (an unknown call result)."""
 
@@ -210,6 +241,8 @@ class Evaluator:
             raise _Raise('TypeError')
         sub = Evaluator(fndef, self.intrinsics, None, self.model_types, self.module, self.cls, self.depth + 1)
         sub.steps = self.steps
+        if any(text(d).endswith('contextmanager') for d in getattr(fndef, 'decorator_list', [])):
+            return _Ctx(sub, fndef, env)
         is_gen = not isinstance(fndef, ast.Lambda) and any(isinstance(x, (ast.Yield, ast.YieldFrom)) for x in _walk_own(fndef))
         if is_gen:
             sub.yields = []  # a generator is evaluated eagerly: its values in order
@@ -369,6 +402,28 @@ class Evaluator:
             else:
                 self.block(st.orelse, env)
             self.block(st.finalbody, env)
+            return
+        if isinstance(st, ast.With):
+            entered = []
+            for item in st.items:
+                cm = self.expr(item.context_expr, env)
+                if isinstance(cm, _Ctx):
+                    val = cm.enter()
+                elif hasattr(cm, '__enter__') and not isinstance(cm, Opaque):
+                    val = cm.__enter__()
+                else:
+                    raise AnalysisError(f'with: unmodelled context manager in `{text(item.context_expr)[:50]}`')
+                if item.optional_vars is not None:
+                    self.assign(item.optional_vars, val, env)
+                entered.append(cm)
+            try:
+                self.block(st.body, env)
+            finally:
+                for cm in reversed(entered):
+                    if isinstance(cm, _Ctx):
+                        cm.exit()
+                    else:
+                        cm.__exit__(None, None, None)
             return
         if isinstance(st, ast.Assert):
             if not self.truth(self.expr(st.test, env)):
